@@ -16,6 +16,14 @@ CHECKS = {
     ),
 }
 
+CHECKS["C11"] = dict(
+    category="model_checking",
+    technique="TLA+ navigation state machine (Nav.tla) model-checked by TLC; TLC-generated behaviours and deviation counterexamples replayed through the real API; recorded sessions validated by TLC against Trace_Nav.tla",
+    text="TLC explores the navigation model (stacks, markers, retry loop, reset) exhaustively for small constants and checks the C11 invariants and action properties; the deviation configurations must be refuted and their counterexamples are replayed in the library. Simulated model behaviours, systematic move/undo sweeps and seeded random walks over the suite's expressions (3 modes, overview/auto-zoom both ways, keys, set_navigation_node, failed and successful set_mathml) are recorded with position before/after and judged event by event by TLC with exactly the clauses of C11. Histories are sampled, not enumerated, in the real library.",
+    design_ref="DESIGN.md section 5 C11",
+    note="Where a Move/Zoom lands is decided by navigate.yaml and is deliberately unspecified (only: within the expression). Trusted: ids in the returned MathML, TLC, the projection of results into events.",
+)
+
 NOT_YET = {}
 
 
